@@ -719,6 +719,11 @@ class Evaluator:
             return
         if k == "unary" and lhs.get("op") == "Deref":
             return self.assign(lhs["e"], v, env, depth)
+        if k in ("mcall", "call"):
+            # `*place_returning_call() = v`
+            place = self.ev(lhs, env, depth)
+            self.path.events.append(Event("write", None, [place, v], None, lhs.get("sp"), name="*"))
+            return
         raise Abort("assignment to %s" % k)
 
     # ------------------------------------------------------------------ constants
